@@ -130,8 +130,18 @@ func Pinned(sig, detail string) Violation {
 	return Violation{Signature: sig, Detail: detail, Pinned: true}
 }
 
+// BoundCap, if >= 0, caps the deviation bound of every case (used by the race-detector pass, whose
+// executions are an order of magnitude slower).
+var BoundCap = -1
+
+// RaceOnly replaces every case's own oracle by the race-detector oracle.
+var RaceOnly = false
+
 // Explore runs every execution of the case within its bound and checks each one.
 func (c *Ctx) Explore(cs Case) {
+	if BoundCap >= 0 && cs.Bound > BoundCap {
+		cs.Bound = BoundCap
+	}
 	if c.replay != nil {
 		if c.replay.Case != cs.Name {
 			return
@@ -149,6 +159,9 @@ func (c *Ctx) Explore(cs Case) {
 		inst = cs.Make()
 		hooks = h.BeginHooks()
 		_ = hooks
+		if RaceOnly {
+			raceBegin()
+		}
 		return vrt.Run(cs.Opts, prefix, inst.Body)
 	}
 	lim := explore.Limits{MaxExecutions: cs.MaxExec, Deadline: c.Deadline}
@@ -161,7 +174,15 @@ func (c *Ctx) Explore(cs Case) {
 		if inst.Nontrivial == nil || inst.Nontrivial(r) {
 			nontriv[o] = true
 		}
-		if inst.Check != nil {
+		if RaceOnly {
+			for _, v := range raceReports(c.Scn.Group) {
+				v.Property = c.Property
+				v.Scenario = c.Scn.ID
+				v.Case = cs.Name
+				v.Choices = explore.ChoiceList(r)
+				c.addViolation(v)
+			}
+		} else if inst.Check != nil {
 			for _, v := range inst.Check(r) {
 				v.Property = c.Property
 				v.Scenario = c.Scn.ID
@@ -220,7 +241,15 @@ func (c *Ctx) doReplay(cs Case) {
 			o = "DIVERGED: " + r.Diverged
 		}
 		var sigs []string
-		if inst.Check != nil {
+		if RaceOnly {
+			for _, v := range raceReports(c.Scn.Group) {
+				v.Property = c.Property
+				v.Scenario = c.Scn.ID
+				v.Case = cs.Name
+				v.Choices = explore.ChoiceList(r)
+				c.addViolation(v)
+			}
+		} else if inst.Check != nil {
 			for _, v := range inst.Check(r) {
 				v.Property = c.Property
 				v.Scenario = c.Scn.ID
